@@ -190,7 +190,7 @@ var specs = map[string]*Spec{
 		Level:    "fault_enumeration",
 		Rule: "every 8th plan is batch (4), the others go by plan index mod 4. (0,1) crash-point enumeration on DirFs over the simulated kernel: prior state = destination absent or old content (0..5000 bytes), optionally a leftover name.tmp of an interrupted earlier call (shorter, equal or longer than the new data; planted at the root and beside the destination), data of 0,1,100,4096 or 70000 bytes, write(2) limited to a few bytes per call in half of the plans; EVERY crash point (before each system call of the call) is executed in strict or ordered journal mode, crash survivors chosen per the durability model, remounted and read: the destination must be the previous state or exactly the data; then a fresh fault-free AtomicCreate over whatever was left behind must yield exactly its data. " +
 			"(2) single-fault enumeration: EVERY system call of the call x {errno (EACCES/ENOSPC/EIO), short write of 1 or half the bytes}: the call panics or returns; the destination is old-or-new at that moment and exactly new if it returned; then the fresh call as above. " +
-			"(3) concurrency: 1-3 creator tasks (independent names / same name in different directories / same name in one directory) plus a reader task under seeded schedules, on DirFs (2/3) or MemFs (1/3): every read sees the old state or one creator's complete data, no creator panics, each destination ends as the complete data of one of its creators. (4) sequential histories centred on AtomicCreate (AtomicCreate / Delete / Create+Append / Link / Open+ReadAt over 1-3 directories, on MemFs and DirFs) checked operation by operation and re-read at the end: a completed call stays exact under later unrelated operations. " +
+			"(3) concurrency: 1-3 creator tasks (independent names / same name in different directories / same name in one directory / independent destinations whose directory and name collide when joined by a separator, e.g. d0 + a-x and d0-a + x / the names x and x.tmp) plus a reader task under seeded schedules, on DirFs (2/3) or MemFs (1/3): every read sees the old state or one creator's complete data, no creator panics, each destination ends as the complete data of one of its creators. (4) sequential histories centred on AtomicCreate (AtomicCreate / Delete / Create+Append / Link / Open+ReadAt over 1-3 directories, on MemFs and DirFs) checked operation by operation and re-read at the end: a completed call stays exact under later unrelated operations. " +
 			"Non-trivial: a fault/crash fired inside the call or a leftover temp file existed (0-2), operations overlapped (3); distinct = distinct concrete plans resp. event-log fingerprints.",
 		Components:   machComponents,
 		Assumptions:  []string{"crash model: durable = fsynced data + journal prefix (strict: fsync(file) forces only that file; ordered: also all earlier metadata); unsynced writes persist in any subset, possibly torn", "visibility after a crash is what a remounted DirFs reads"},
@@ -215,7 +215,7 @@ var specs = map[string]*Spec{
 		Rule: "each plan is one sync.Cond, a sequence of 1-3 machine.WaitTimeout calls (timeouts 0,1,2,10,100,10000,2^32 ms or random < 300 ms; optional pauses with the lock released between calls) and 0-4 concurrent events at distinct simulated instants aimed before / just before / just after / long after a timeout: Signal, Broadcast, or a plain cond.Wait waiter; executed with the real machine.WaitTimeout -> primitive.WaitTimeout, real sync and time under testing/synctest's fake clock (go1.26.8). " +
 			"Oracles against an ideal timed wait on a FIFO condition variable: returns holding the lock (TryLock fails), within 1 ms of simulated time after the timeout, within 1 ms after the Broadcast/Signal that reaches it, never panics, the bubble drains. Every 64th plan is the auxiliary, non-simulation assertion set for the three pure clauses (UInt64ToString, MapClear, Assume/Assert); it is not counted as non-trivial. " +
 			"A third of the plans is the perturb batch: events tie with call starts/expiries, runtime.Gosched nudges are spliced into machine/prims.go, order is recovered from stamps taken under the mutex; its outcome is the Go runtime's choice, so its replays reproduce with high probability only. " +
-			"The sim flavour runs the same kind of plans (ties included) on a second driver in which machine/prims.go AND the primitive dependency's prims.go are compiled with sync->simsync, time->simtime, channels and select->simchan, go->simrt.Go and a yield before every statement, under the deterministic simrt scheduler: every interleaving between caller, helper goroutine, timer and signallers and every tie is decided by the tape and replays exactly. " +
+			"The sim flavour runs the same kind of plans (ties included) on a second driver in which machine/prims.go AND the primitive dependency's prims.go are compiled with sync->simsync, time->simtime, channels and select->simchan, go->simrt.Go and a yield before every statement, under the deterministic simrt scheduler: every interleaving between caller, helper goroutine, timer and signallers and every tie is decided by the tape and replays exactly; every 8th sim plan is instead 2-3 concurrent callers of machine.UInt64ToString on a few numbers that alias under power-of-two and decimal reductions, each result compared with strconv.FormatUint (a shared cache or buffer inside the primitive would make the clause schedule-dependent). " +
 			"Non-trivial: at least one concurrent event or more than one call (synctest), more than three context switches (sim); distinct = distinct (plan, observed return times) resp. event-log fingerprints.",
 		Components: map[string]string{"machine/prims.go WaitTimeout": "real", "github.com/goose-lang/primitive v0.1.0 WaitTimeout": "real", "sync.Cond, sync.Mutex, goroutines": "real", "time (clock, timers)": "stub: testing/synctest fake clock of go1.26.8; goroutine choice inside the bubble is the Go runtime's (events are placed at distinct instants so that it cannot change the outcome)",
 			"sim flavour": "machine/prims.go and primitive@v0.1.0/prims.go real, statement-level yields; sync, time, channels/select, goroutine scheduling are stubs (simsync, simtime, simchan, simrt)"},
